@@ -21,6 +21,10 @@ def make_case(rng):
     h = lasio.rand_header(rng)
     if rng.random() < 0.45:
         lasio.add_extra_dims(rng, h)
+    if rng.random() < 0.12:
+        # legal names that begin or end with a blank, or contain one
+        nm = rng.choice([" lead", "trail ", " both ", "in side", "x" * 31 + " ", " "])
+        h.add_extra_dim(laspy.ExtraBytesParams(nm, rng.choice(["u1", "i2", "f4", "2u2", "f8"]), description=rng.choice(["", " d ", "desc"])))
     n = rng.choice([0, 1, 1, 2, 7, 64])
     pts = lasio.rand_points(rng, h, n)
     kind = rng.choice(["lasdata", "lasdata", "index", "rescale"])
@@ -41,12 +45,8 @@ def make_case(rng):
         las._verif_rescale = True
     if kind == "index" and n:
         # a one-point (or few-point) cloud obtained by indexing
-        ix = rng.choice([0, n - 1, slice(0, 1), np.array([n - 1]), slice(None, None, 2)])
-        sub = las[ix]
-        if isinstance(ix, slice) and ix.step == 2:
-            sub.points = sub.points.copy() if hasattr(sub.points, "copy") else sub.points
-            sub = laspy.LasData(header=sub.header, points=laspy.PackedPointRecord(np.ascontiguousarray(sub.points.array), sub.points.point_format))
-        las = sub
+        ix = rng.choice([0, n - 1, slice(0, 1), np.array([n - 1]), slice(None, None, 2), slice(None, None, -1), slice(1, None, 3)])
+        las = las[ix]      # the strided selection las[::2] included: its records are not contiguous in memory
     if las.header.version.minor >= 4 and rng.random() < 0.5:
         las.evlrs = laspy.vlrs.vlrlist.VLRList([lasio.rand_vlr(rng, 70000 if rng.random() < 0.05 else 300) for _ in range(rng.choice([1, 2]))])
     dest = rng.choice(["bytesio", "bytesio", "stream", "path"])
@@ -68,6 +68,66 @@ def write_to(las, dest, tmpdir):
             closed = f.closed
     with open(path, "rb") as f:
         return f.read(), closed
+
+
+def read_routes(rng, raw):
+    """the records of the file through the other reading routes of laspy.open, every piece kept alive until all are read"""
+    import laspy
+    out = {}
+    try:
+        with laspy.open(io.BytesIO(raw)) as r:
+            n = r.header.point_count
+            k = rng.choice([1, 2, 3, max(1, n // 2), max(1, n), n + 5])
+            pieces = list(r.chunk_iterator(k))
+            out[f"chunk_iterator({k}) pieces kept"] = b"".join(lasio.rec_bytes(p) for p in pieces)
+        with laspy.open(io.BytesIO(raw)) as r:
+            a = r.read_points(n // 2)
+            b = r.read_points(n // 2)
+            c = r.read_points(-1)
+            out["read_points(n//2) twice then the rest, all kept"] = lasio.rec_bytes(a) + lasio.rec_bytes(b) + lasio.rec_bytes(c)
+        with laspy.open(io.BytesIO(raw)) as r:
+            a = r.read_points(n // 2)
+            b = r.read()
+            out["read_points(n//2) then read()"] = lasio.rec_bytes(a) + lasio.rec_bytes(b.points)
+    except Exception as ex:
+        out["error"] = f"{type(ex).__name__}: {ex}"
+    return out
+
+
+def foreign_cases(ctx):
+    """files laspy did not write: the extra-bytes VLR describes only the FIRST extra dimensions of the record, the rest of the
+    extra bytes is undescribed (legal: a reader must keep them). Built from a laspy file by dropping trailing descriptors."""
+    import laspy
+    out = []
+    for _ in range(ctx.n(40, 400)):
+        rng = ctx.rng
+        h = lasio.rand_header(rng, nvlrs=rng.choice([0, 1]))
+        h.extra_vlr_bytes = b""
+        lasio.add_extra_dims(rng, h, k=rng.choice([2, 3]))
+        n = rng.choice([0, 1, 2, 9])
+        las = laspy.LasData(header=h, points=lasio.rand_points(rng, h, n))
+        raw = bytearray(lasio.write_las(las.header, las.points))
+        hs = int.from_bytes(raw[94:96], "little")
+        nv = int.from_bytes(raw[100:104], "little")
+        pos = hs
+        done = False
+        for _v in range(nv):
+            uid = bytes(raw[pos + 2:pos + 18]).split(b"\0")[0]
+            rid = int.from_bytes(raw[pos + 18:pos + 20], "little")
+            ln = int.from_bytes(raw[pos + 20:pos + 22], "little")
+            if uid == b"LASF_Spec" and rid == 4 and ln >= 2 * 192:
+                drop = rng.randrange(1, ln // 192)
+                del raw[pos + 54 + ln - 192 * drop:pos + 54 + ln]
+                raw[pos + 20:pos + 22] = (ln - 192 * drop).to_bytes(2, "little")
+                off = int.from_bytes(raw[96:100], "little")
+                raw[96:100] = (off - 192 * drop).to_bytes(4, "little")
+                done = True
+                break
+            pos += 54 + ln
+        if done:
+            out.append((bytes(raw), lasio.rec_bytes(las.points), {"version": str(h.version), "format": h.point_format.id, "points": n,
+                                                                   "extra": [(d.name, str(d.dtype)) for d in h.point_format.extra_dimensions], "descriptors_dropped": drop}))
+    return out
 
 
 def cases(ctx):
@@ -97,6 +157,7 @@ def cases(ctx):
                         b2 = io.BytesIO()
                         back.write(b2)
                         rec["raw2"] = b2.getvalue()
+                        rec["routes"] = read_routes(ctx.rng, rec["raw"])
                     except Exception as ex:
                         rec["read_error"] = f"{type(ex).__name__}: {ex}"
                 _CASES.append(rec)
@@ -191,6 +252,31 @@ def search(ctx, seeds):
             r2 = c.get("raw2") or b""
             diff = next((i for i, (a, b) in enumerate(zip(r2, c["raw"])) if a != b), min(len(r2), len(c["raw"])))
             add("write after read is not idempotent", d, f"first differing byte {diff}; lengths {len(c['raw'])} then {len(r2)}")
+    for c in cases(ctx):
+        if c.get("routes") and c.get("back") is not None and not getattr(c["las"], "_verif_rescale", False):
+            want = lasio.rec_bytes(c["las"].points)
+            for route, got in c["routes"].items():
+                if route == "error":
+                    add("reading route raises", c["desc"], got)
+                elif got != want:
+                    add("records differ through " + route.split("(")[0].split(" ")[0], dict(c["desc"], route=route), f"{len(got)} bytes read through {route}, {len(want)} written; contents differ")
+    for raw, recs, d in foreign_cases(ctx):
+        ctx.case(("foreign", raw), nontrivial=d["points"] > 0)
+        ctx.count("foreign-partial-extra-bytes-vlr")
+        try:
+            back = laspy_read(raw)
+            if lasio.rec_bytes(back.points) != recs or len(back.points) != d["points"]:
+                add("foreign file (partly described extra bytes): records differ", d, f"{len(back.points)} records of {back.point_format.size} bytes read; the file holds {d['points']} records of {len(recs) // max(1, d['points'])} bytes")
+                continue
+            b1 = io.BytesIO(); back.write(b1)
+            again = laspy_read(b1.getvalue())
+            b2 = io.BytesIO(); again.write(b2)
+            if lasio.rec_bytes(again.points) != recs:
+                add("foreign file (partly described extra bytes): records differ after rewrite", d, "records of the rewritten file differ from the original ones")
+            if b1.getvalue() != b2.getvalue():
+                add("foreign file (partly described extra bytes): rewrite not idempotent", d, "write(read(f)) differs from write(read(write(read(f))))")
+        except Exception as ex:
+            add("foreign file (partly described extra bytes): " + type(ex).__name__, d, f"{type(ex).__name__}: {ex}")
     for las, budget, size, raised, same in failing_write_cases(ctx):
         ctx.case(("failing-write", budget, size), nontrivial=True)
         ctx.count("failing-write")
@@ -199,6 +285,11 @@ def search(ctx, seeds):
                                                                      "fails_after_bytes": budget, "file_size": size},
                 "the destination raised OSError during the write; the scale-aware record (rescaled in place for the write) was not restored")
     return failing[:8]
+
+
+def laspy_read(raw):
+    import laspy
+    return laspy.read(io.BytesIO(raw))
 
 
 class FailingStream(io.BytesIO):
